@@ -3,6 +3,7 @@ import BbRe.Lemmas.NaiveDir
 import BbRe.Lemmas.NaiveDirLazy
 import BbRe.Lemmas.NaiveDirReach
 import BbRe.Lemmas.NaiveDirComplete
+import BbRe.Lemmas.NaiveDirHardLink
 import BbRe.Lemmas.InputRootExamples
 /-!
 # C17, eager half: `naiveBuildDirectory.MergeDirectoryContents` (non-virtual workers)
@@ -146,6 +147,50 @@ theorem naive_succeeds_with_the_requested_tree (c : CAS) (O : Oracle) (hcas : O.
   obtain ⟨ch, h⟩ := naive_succeeds_when_clean c O hcas hfs rank hr fuel d hf hc
   rw [h]
   exact ⟨rfl, naive_exact c O fuel d ch h⟩
+
+/-! ### through the hard-linking file fetcher (`mergeHL`)
+
+Full statement aimed at (NOT proved yet): `naive_exact_hardlink` — if
+`mergeHL c O K fuel d [] s = (s', ch, .ok)` and `CacheInv s` then `CacheInv s'` and `ch` shows under
+every path what `expand c fuel (.lazy d none)` shows. Proved below: the per-call part (every
+`GetFile` of the walk keeps the cache invariant and a step that goes on clean has appended exactly
+the requested file — the hypothesis `loop_ok` needs of the file step). Missing: threading the
+cache state through `loop_ok`/`level_ok` (the `conv`-based description of the directory loop
+assumes entries are handled independently of each other). -/
+
+open BbRe.InputRoot.HardLink in
+/-- Per-call part of `naive_exact_hardlink`: under the cache invariant (`CacheClean` + limits)
+one file step of the walk through the hard-linking fetcher keeps the invariant, and if it goes
+on without a failed download it has created exactly the requested file (digest, executable
+bit) under a valid name that was free. -/
+theorem naive_exact_hardlink_step_partial (c : CAS) (O : Oracle) (K : HLParams)
+    (hK : ∀ d x, K.unkey (K.key d x) = (d, x)) (p : Path) (e : FileNode) (s : HardLink.State)
+    (ch : Children) (bad : Bool) (h : CacheInv s) :
+    CacheInv (fileStepHL c O K p e s ch bad).1 ∧
+    ∀ ch', (fileStepHL c O K p e s ch bad).2 = .next ch' false →
+      bad = false ∧ validName e.name = true ∧ hasName ch e.name = false ∧
+      ∃ d, parseDigest c.hashLen e.digest = some d ∧ ch' = ch ++ [(e.name, .file d e.exec none)] :=
+  fileStepHL_next c O K hK p e s ch bad h
+
+open BbRe.InputRoot.HardLink in
+/-- A cache entry deleted or replaced by a directory behind the worker's back before a
+`GetFile` of the walk leads to a re-download, a link or an error — never to another file in the
+build directory; the cache invariant survives. -/
+theorem naive_hardlink_cache_faults_are_errors (c : CAS) (O : Oracle) (K : HLParams)
+    (hK : ∀ d x, K.unkey (K.key d x) = (d, x)) (s : HardLink.State) (fl : Fault) (q : Path) (d : Dig)
+    (exec : Bool) (name : Name) (ch : Children) (h : CacheInv s) :
+    CacheInv (getFileHL c O K (fault s fl) q d exec name ch).1 ∧
+    ∀ ch', (getFileHL c O K (fault s fl) q d exec name ch).2 = some ch' →
+      ch' = ch ++ [(name, .file d exec none)] :=
+  getFileHL_after_fault c O K hK s fl q d exec name ch h
+
+/-- Non-vacuity: the empty cache satisfies the invariant; `b0` merges OK through it (keys: size +
+executable bit are enough to tell the two files of `exCAS` apart) and leaves one cache entry. -/
+example : CacheInv ⟨2, 100, [], []⟩ := ⟨by intro k c h; simp at h, by simp [BbRe.Lemmas.InputRoot.HardLink.Lim], Or.inl (by simp [HardLink.total])⟩
+example :
+    let K : HLParams := ⟨fun d x => 2 * d.size + (if x then 1 else 0), fun k => (if k / 2 = 0 then f2 else f1, k % 2 = 1)⟩
+    let r := mergeHL exCAS ⟨[], [], []⟩ K 3 dB [] ⟨2, 100, [], []⟩
+    (r.2.2, r.1.disk) = (.ok, [(0, .file 0)]) := by decide
 
 /-! ### non-vacuity (store `exCAS` of `Lemmas/InputRootExamples.lean`) -/
 
